@@ -51,6 +51,22 @@ func zzIDLen(name string) int {
 	return []int{32, 1, 33, 0}[zzsym.Choose(name, zzsym.Param("IDS"))]
 }
 
+// zzSparseID: an id of n bytes; up to 2 bytes fully symbolic, longer ones with symbolic first, middle and last
+// bytes and fixed filler in between (keys are compared bytewise; fully symbolic 32-byte keys only make the
+// store's ordering queries hard).
+func zzSparseID(name string, n int) []byte {
+	if n <= 2 {
+		return zzsym.Bytes(name, n)
+	}
+	b := make([]byte, n)
+	for i := range b {
+		b[i] = 0xab
+	}
+	v := zzsym.Bytes(name, 3)
+	b[0], b[n/2], b[n-1] = v[0], v[1], v[2]
+	return b
+}
+
 func zzMessage(id []byte) *scom.MakeTxParam {
 	return &scom.MakeTxParam{
 		TxHash:              zzsym.Bytes("m.txhash", 2),
@@ -115,8 +131,8 @@ func zzTwoSubmissions(router uint64, hdr1, hdr2 []byte, strict bool) {
 	if src2 != src1 {
 		zzRegister(db, src2, router)
 	}
-	id1 := zzsym.Bytes("id1", zzIDLen("id1.len"))
-	id2 := zzsym.Bytes("id2", zzIDLen("id2.len"))
+	id1 := zzSparseID("id1", zzIDLen("id1.len"))
+	id2 := zzSparseID("id2", zzIDLen("id2.len"))
 	reqPrefix := utils.ConcatKey(utils.CrossChainManagerContractAddress, []byte(scom.REQUEST))
 	donePrefix := utils.ConcatKey(utils.CrossChainManagerContractAddress, []byte(scom.DONE_TX))
 
@@ -179,8 +195,8 @@ func ZZ_C20_ProofRouters_witness() {
 	db := zzNewCacheDB()
 	zzRegister(db, zzDst, utils.ETH_ROUTER)
 	zzRegister(db, 5, utils.BSC_ROUTER)
-	id1 := zzsym.Bytes("id1", 32)
-	id2 := zzsym.Bytes("id2", 32)
+	id1 := zzSparseID("id1", 32)
+	id2 := zzSparseID("id2", 32)
 	s1 := zzSubmit(db, 5, id1, 1, nil)
 	zzsym.Assume(s1.out.err == nil)
 	s2 := zzSubmit(db, 5, id2, 2, nil)
@@ -209,9 +225,9 @@ func ZZ_C20_Ont_witness() {
 	db := zzNewCacheDB()
 	zzRegister(db, zzDst, utils.ETH_ROUTER)
 	zzRegister(db, 5, utils.ONT_ROUTER)
-	id := zzsym.Bytes("id1", 32)
+	id := zzSparseID("id1", 32)
 	s1 := zzSubmit(db, 5, id, 1, zzOntMsg(7))
 	zzsym.Assume(s1.out.err == nil)
-	s2 := zzSubmit(db, 5, zzsym.Bytes("id2", 32), 2, zzOntMsg(zzsym.U32("ont.h2")))
+	s2 := zzSubmit(db, 5, zzSparseID("id2", 32), 2, zzOntMsg(zzsym.U32("ont.h2")))
 	zzsym.Assert(s2.out.err == nil, "witness: the second id may equal the first and the proof may be rejected")
 }
